@@ -50,7 +50,7 @@ def run(prop: str, tier: str, repo: str, seed: int, quiet: bool = False, evidenc
             if o.status == core.DISCHARGED:
                 out.append("   ok   %s/%s %s %s — %s" % (o.prop, o.rule, o.where, o.construct, o.message))
     for o, k in kn:
-        out.append("KNOWN-FINDING: property=%s rule=%s %s [%s] %s" % (prop, o.rule, o.construct, o.where, k.get("what", o.message)))
+        out.append("KNOWN-FINDING: property=%s rule=%s %s [%s] %s" % (prop, o.rule, o.construct, o.where, o.message))
     for o, k in regress:
         out.append("REGRESSION of a finding recorded as fixed (%s): %s" % (k.get("commit", "?"), o.key))
     paths = core.write_replays(r, new) if new else []
